@@ -114,7 +114,7 @@ def sigBytes (v : Bytes) : Nat := (bitsOf v + 7) / 8
 def keyOutputLen (o : Attrs) : Nat :=
   let kt := getULongD o CKA.KEY_TYPE 0xFFFFFFFF
   if kt == CKK.RSA then
-    (match getA o 0x120 with | some (.bytes v _) => sigBytes v | _ => (getULongD o 0x121 0 + 7) / 8)
+    (match getA o 0x120 with | some (.bytes v _) => sigBytes v | _ => (getULongD o 0x121 (getULongD o 0xFFFF0121 0) + 7) / 8)
   else if kt == CKK.DSA then
     (match getA o 0x131 with | some (.bytes v _) => 2 * sigBytes v | _ => 0)
   else if kt == CKK.EC then
@@ -497,6 +497,27 @@ def markUnk (o : Attrs) (tys : List Nat) : Attrs := tys.foldl (fun a t => if (ge
 /-- errors the key-type specific part of `generate*` reports before the object is created (from the observation) -/
 def preGenErrors : List RV := [CKR.TEMPLATE_INCOMPLETE, CKR.ATTRIBUTE_VALUE_INVALID, CKR.GENERAL_ERROR, 0x130 /- DOMAIN_PARAMS_INVALID -/, CKR.FUNCTION_FAILED, CKR.KEY_SIZE_RANGE]
 
+/-- the tail of `stepGenKey`: the template engine decides, then the object is registered -/
+def genKeyFinish (s : State) (ss : Sess) (h mech : Nat) (tpl : Template) (t : Tok) (cls kt dkt : Nat) (onToken isPriv : Bool) (keyLen : Nat) : State × Resp :=
+  if tpl.length > 28 then rOnly s CKR.TEMPLATE_INCONSISTENT
+  else
+    let keyTpl : Template := [ulongEntry CKA.CLASS cls, boolEntry CKA.TOKEN onToken, boolEntry CKA.PRIVATE isPriv, ulongEntry CKA.KEY_TYPE kt] ++
+      tpl.filter fun e => !([CKA.CLASS, CKA.TOKEN, CKA.PRIVATE, CKA.KEY_TYPE, CKA.CHECK_VALUE].contains e.ty)
+    match findClass cls kt 0 with
+    | none => rOnly s CKR.ATTRIBUTE_VALUE_INVALID
+    | some cd =>
+      match saveTemplate cd (initAttrs cd) (reorderTpl keyTpl) OP.GENERATE isPriv t.soIn CKR.OK with
+      | .error rv => rOnly s rv
+      | .ok attrs =>
+        let a1 := postGenerate mech true attrs
+        let a2 := setA a1 CKA.VALUE .unk
+        let a3 := if tpl.any (·.ty == CKA.CHECK_VALUE) then a2 else setA a2 CKA.CHECK_VALUE .unk
+        -- the byte length of the value is what the operations need later
+        let vlen := if dkt == CKK.DES then 8 else if dkt == CKK.DES2 then 16 else if dkt == CKK.DES3 then 24 else keyLen
+        let a4 := setA a3 0xFFFF0161 (.ulong vlen)        -- model-internal: not an attribute of any class, invisible to the API
+        let r := addObject s ss.slot h onToken isPriv a4
+        (r.1, { rv := CKR.OK, nums := [r.2] })
+
 /-- C_GenerateKey for secret keys (domain parameter generation is taken from the observation) -/
 def stepGenKey (s : State) (h mech : Nat) (tpl : Template) (oRv : RV) : State × Resp :=
   match s.handles.getSess h with
@@ -530,24 +551,35 @@ def stepGenKey (s : State) (h mech : Nat) (tpl : Template) (oRv : RV) : State ×
             else if needsLen && keyLen == 0 then rOnly s CKR.TEMPLATE_INCOMPLETE
             else if dkt == CKK.AES && keyLen != 16 && keyLen != 24 && keyLen != 32 then rOnly s CKR.ATTRIBUTE_VALUE_INVALID
             else if oRv == CKR.GENERAL_ERROR then rOnly s oRv
-            else if tpl.length > 28 then rOnly s CKR.TEMPLATE_INCONSISTENT
-            else
-              let keyTpl : Template := [ulongEntry CKA.CLASS cls, boolEntry CKA.TOKEN onToken, boolEntry CKA.PRIVATE isPriv, ulongEntry CKA.KEY_TYPE kt] ++
-                tpl.filter fun e => !([CKA.CLASS, CKA.TOKEN, CKA.PRIVATE, CKA.KEY_TYPE, CKA.CHECK_VALUE].contains e.ty)
-              match findClass cls kt 0 with
-              | none => rOnly s CKR.ATTRIBUTE_VALUE_INVALID
-              | some cd =>
-                match saveTemplate cd (initAttrs cd) (reorderTpl keyTpl) OP.GENERATE isPriv t.soIn CKR.OK with
-                | .error rv => rOnly s rv
-                | .ok attrs =>
-                  let a1 := postGenerate mech true attrs
-                  let a2 := setA a1 CKA.VALUE .unk
-                  let a3 := if tpl.any (·.ty == CKA.CHECK_VALUE) then a2 else setA a2 CKA.CHECK_VALUE .unk
-                  -- the byte length of the value is what the operations need later
-                  let vlen := if dkt == CKK.DES then 8 else if dkt == CKK.DES2 then 16 else if dkt == CKK.DES3 then 24 else keyLen
-                  let a4 := setA a3 0xFFFF0161 (.ulong vlen)        -- model-internal: not an attribute of any class, invisible to the API
-                  let r := addObject s ss.slot h onToken isPriv a4
-                  (r.1, { rv := CKR.OK, nums := [r.2] })
+            else genKeyFinish s ss h mech tpl t cls kt dkt onToken isPriv keyLen
+
+/-- the tail of `stepGenPair`: both templates go through the template engine, then both objects are registered -/
+def genPairFinish (s : State) (ss : Sess) (h mech : Nat) (pubT privT : Template) (t : Tok) (dkt : Nat) (pubTok pubPriv privTok privPriv : Bool) : State × Resp :=
+  let skip : List Nat := [CKA.CLASS, CKA.TOKEN, CKA.PRIVATE, CKA.KEY_TYPE] ++ (if dkt == CKK.RSA then [0x122] else [])
+  let pubTpl : Template := [ulongEntry CKA.CLASS CKO.PUBLIC_KEY, boolEntry CKA.TOKEN pubTok, boolEntry CKA.PRIVATE pubPriv, ulongEntry CKA.KEY_TYPE dkt] ++
+    pubT.filter fun e => !(skip.contains e.ty)
+  let privTpl : Template := [ulongEntry CKA.CLASS CKO.PRIVATE_KEY, boolEntry CKA.TOKEN privTok, boolEntry CKA.PRIVATE privPriv, ulongEntry CKA.KEY_TYPE dkt] ++
+    privT.filter fun e => !([CKA.CLASS, CKA.TOKEN, CKA.PRIVATE, CKA.KEY_TYPE].contains e.ty)
+  match findClass CKO.PUBLIC_KEY dkt 0, findClass CKO.PRIVATE_KEY dkt 0 with
+  | some cdPub, some cdPriv =>
+    (match saveTemplate cdPub (initAttrs cdPub) pubTpl OP.GENERATE pubPriv t.soIn CKR.OK with
+     | .error rv => rOnly s rv
+     | .ok pa =>
+       match saveTemplate cdPriv (initAttrs cdPriv) privTpl OP.GENERATE privPriv t.soIn CKR.OK with
+       | .error rv => rOnly s rv
+       | .ok va =>
+         let material : List Nat := [0x120, 0x122, 0x123, 0x124, 0x125, 0x126, 0x127, 0x128, 0x11, 0x181, 0x130, 0x131, 0x132, 0x129]
+         let pa1 := markUnk (postGenerate mech false pa) material
+         -- the private key gets the curve / domain parameters of the public template
+         let ecp := getA pa 0x180
+         let va0 := match ecp with | some v => (if (getA va 0x180).isSome then setA va 0x180 (match v with | .bytes b _ => .bytes b privPriv | x => x) else va) | none => va
+         let va1 := markUnk (postGenerate mech true va0) material
+         let va2 := setA va1 0xFFFF0121 (.ulong (getULongD pa 0x121 0))      -- model-internal on the private key: modulus bits
+         let r1 := addObject s ss.slot h pubTok pubPriv pa1
+         let r2 := addObject r1.1 ss.slot h privTok privPriv va2
+         (r2.1, { rv := CKR.OK, nums := [r1.2, r2.2] }))
+  | _, _ => rOnly s CKR.GENERAL_ERROR
+
 
 /-- C_GenerateKeyPair: guards, then the template engine decides; what the key generator itself refuses is observed -/
 def stepGenPair (s : State) (h mech : Nat) (pubT privT : Template) (oRv : RV) : State × Resp :=
@@ -579,30 +611,6 @@ def stepGenPair (s : State) (h mech : Nat) (pubT privT : Template) (oRv : RV) : 
           if a1 != CKR.OK then rOnly s a1
           else if a2 != CKR.OK then rOnly s a2
           else if preGenErrors.contains oRv then rOnly s oRv
-          else
-            let skip : List Nat := [CKA.CLASS, CKA.TOKEN, CKA.PRIVATE, CKA.KEY_TYPE] ++ (if dkt == CKK.RSA then [0x122] else [])
-            let pubTpl : Template := [ulongEntry CKA.CLASS CKO.PUBLIC_KEY, boolEntry CKA.TOKEN pubTok, boolEntry CKA.PRIVATE pubPriv, ulongEntry CKA.KEY_TYPE dkt] ++
-              pubT.filter fun e => !(skip.contains e.ty)
-            let privTpl : Template := [ulongEntry CKA.CLASS CKO.PRIVATE_KEY, boolEntry CKA.TOKEN privTok, boolEntry CKA.PRIVATE privPriv, ulongEntry CKA.KEY_TYPE dkt] ++
-              privT.filter fun e => !([CKA.CLASS, CKA.TOKEN, CKA.PRIVATE, CKA.KEY_TYPE].contains e.ty)
-            match findClass CKO.PUBLIC_KEY dkt 0, findClass CKO.PRIVATE_KEY dkt 0 with
-            | some cdPub, some cdPriv =>
-              (match saveTemplate cdPub (initAttrs cdPub) pubTpl OP.GENERATE pubPriv t.soIn CKR.OK with
-               | .error rv => rOnly s rv
-               | .ok pa =>
-                 match saveTemplate cdPriv (initAttrs cdPriv) privTpl OP.GENERATE privPriv t.soIn CKR.OK with
-                 | .error rv => rOnly s rv
-                 | .ok va =>
-                   let material : List Nat := [0x120, 0x122, 0x123, 0x124, 0x125, 0x126, 0x127, 0x128, 0x11, 0x181, 0x130, 0x131, 0x132, 0x129]
-                   let pa1 := markUnk (postGenerate mech false pa) material
-                   -- the private key gets the curve / domain parameters of the public template
-                   let ecp := getA pa 0x180
-                   let va0 := match ecp with | some v => (if (getA va 0x180).isSome then setA va 0x180 (match v with | .bytes b _ => .bytes b privPriv | x => x) else va) | none => va
-                   let va1 := markUnk (postGenerate mech true va0) material
-                   let va2 := setA va1 0x121 (.ulong (getULongD pa 0x121 0))      -- model-internal on the private key: modulus bits
-                   let r1 := addObject s ss.slot h pubTok pubPriv pa1
-                   let r2 := addObject r1.1 ss.slot h privTok privPriv va2
-                   (r2.1, { rv := CKR.OK, nums := [r1.2, r2.2] }))
-            | _, _ => rOnly s CKR.GENERAL_ERROR
+          else genPairFinish s ss h mech pubT privT t dkt pubTok pubPriv privTok privPriv
 
 end Shm
